@@ -350,7 +350,7 @@ fn parse_vspec(path: &Path) -> Result<Vec<Directive>, String> {
             "item" => {
                 let mut it = rest.split_whitespace();
                 let kind = it.next().unwrap_or("").to_string();
-                let name = it.next().unwrap_or("").to_string();
+                let name = if kind == "fnconst" { it.collect::<Vec<_>>().join(" ") } else { it.next().unwrap_or("").to_string() };
                 out.push(Directive::Item { kind, name });
             }
             "fn" => {
@@ -1213,6 +1213,35 @@ fn emit_type(src: &Src, facts: &Facts, name: &str, opts: &[String], out: &mut Ou
 /// `use core::future::Future` / `use futures_core::Stream` inside it are redirected to the preamble
 /// traits of the same name (T11).
 fn emit_item(src: &Src, facts: &Facts, kind: &str, name: &str, out: &mut Out) -> Result<(), String> {
+    if kind == "fnconst" {
+        // `item fnconst <CONST> as <NEW>`: a constant declared INSIDE a function body of this file is re-emitted at module
+        // level under a new name, so that contracts can speak about "the constant the code uses" instead of a literal
+        let mut it = name.split_whitespace();
+        let (cname, newname) = match (it.next(), it.next(), it.next()) { (Some(c), Some("as"), Some(n)) => (c, n), _ => return Err(format!("item fnconst `{name}`: expected `<CONST> as <NEW>`")) };
+        struct FindConst<'b> { name: &'b str, found: Vec<(String, String)> , src: &'b Src }
+        impl<'b, 'ast> Visit<'ast> for FindConst<'b> {
+            fn visit_item_const(&mut self, c: &'ast syn::ItemConst) {
+                if c.ident == self.name {
+                    let ty = self.src.slice(self.src.range(c.ty.span())).to_string();
+                    let ex = self.src.slice(self.src.range(c.expr.span())).to_string();
+                    self.found.push((ty, ex));
+                }
+            }
+            fn visit_item_mod(&mut self, m: &'ast syn::ItemMod) {
+                if is_cfg_test(&m.attrs) { return; }
+                visit::visit_item_mod(self, m);
+            }
+        }
+        let mut f = FindConst { name: cname, found: vec![], src };
+        f.visit_file(&src.ast);
+        f.found.sort(); f.found.dedup();
+        if f.found.len() != 1 {
+            return Err(format!("item fnconst {cname}: lost anchor: {} distinct declarations of that constant in {}", f.found.len(), src.rel));
+        }
+        let (ty, ex) = &f.found[0];
+        out.push(&format!("\npub const {newname}: {ty} = {ex};\n"), Origin::Gen);
+        return Ok(());
+    }
     for it in &src.ast.items {
         let (ok, start) = match (kind, it) {
             ("trait", syn::Item::Trait(t)) if t.ident == name => (true, src.range(t.trait_token.span()).0),
